@@ -8,6 +8,7 @@ import (
 	"testing"
 
 	"github.com/jdillenkofer/pithos/internal/storage"
+	"github.com/jdillenkofer/pithos/internal/storage/outbox"
 	"github.com/jdillenkofer/pithos/verif/mc/ev"
 	"github.com/jdillenkofer/pithos/verif/mc/sched"
 	"github.com/jdillenkofer/pithos/verif/mc/sx"
@@ -176,6 +177,36 @@ func init() {
 	}
 }
 
+// Sequential part through the storage outbox (anchor outbox.go): unconditional puts are queued
+// and acknowledged, conditional puts/completes are evaluated synchronously — they must see every
+// write acknowledged before them. Worker passes are explicit history steps (see c21_test.go).
+func c07OutboxAlphabet(m *sx.Model, stack string) []sx.Op {
+	if m.Buckets["bka"] == nil {
+		return []sx.Op{{Kind: "CreateBucket", B: "bka"}}
+	}
+	ops := []sx.Op{
+		{Kind: "WorkerStep"},
+		{Kind: "Put", B: "bka", K: "k1", Body: "a"},
+		{Kind: "Put", B: "bka", K: "k1", Body: "b", Opt: map[string]string{"ifnm": "*"}},
+		{Kind: "Put", B: "bka", K: "k1", Body: "c", Opt: map[string]string{"ifm": "cur"}},
+		{Kind: "Put", B: "bka", K: "k1", Body: "c", Opt: map[string]string{"ifm": "bad"}},
+		{Kind: "Delete", B: "bka", K: "k1"},
+		{Kind: "Delete", B: "bka", K: "k1", Opt: map[string]string{"ifm": "cur"}},
+		{Kind: "Mpu", B: "bka", K: "k1", Parts: []string{"x", "y"}, Opt: map[string]string{"ifnm": "*"}},
+		{Kind: "Mpu", B: "bka", K: "k1", Parts: []string{"x", "y"}, Opt: map[string]string{"ifm": "cur"}},
+	}
+	sortOps(ops)
+	return ops
+}
+
+func init() {
+	sx.Register(&sx.Spec{Name: "C07outbox", Buckets: []string{"bka"}, Keys: []string{"k1"}, Alphabet: c07OutboxAlphabet, Under: c21Under,
+		Assert: map[string]bool{"exist": true, "content": true, "result": true}, LenientResultVID: true,
+		WorkerStep: func(w *world.World, under storage.Storage) {
+			outbox.ProcessOnce(context.Background(), c21Current[w].Storage)
+		}})
+}
+
 func TestC07(t *testing.T) {
 	run := ev.NewRun("C07", "model_checking")
 	run.Assumptions = []string{"SQLite: write transactions are serialised by the single writer connection (modelled as a lock); interleavings inside a transaction (PostgreSQL READ COMMITTED) are out of scope"}
@@ -191,8 +222,18 @@ func TestC07(t *testing.T) {
 	if !quick() {
 		bound = 3
 	}
+	ob := &sx.Search{Run: run, TestRun: "^TestWorker$", Spec: sx.SpecByName("C07outbox"), Depth: 3, Stacks: []string{world.StackSQL},
+		Seeds: [][]sx.Op{{{Kind: "CreateBucket", B: "bka"}}}}
+	if !quick() {
+		ob.Depth = 4
+	}
+	ob.Explore()
 	exploreScenarios(t, run, names, bound, tot, nil)
 	tot.coverage(run)
+	run.Cov["sequential_outbox_histories"] = map[string]any{"states": ob.States, "transitions": ob.Transitions, "depth": ob.DepthDone, "outcomes": ob.Outcomes}
+	run.Cov["states"] = run.Cov["states"].(int) + ob.States
+	run.Cov["transitions"] = run.Cov["transitions"].(int) + ob.Transitions
+	run.Cov["traces_validated_against_impl"] = run.Cov["transitions"]
 	fmt.Printf("C07: executions=%d per=%v\n", tot.Executions, tot.PerScen)
 	finish(t, run)
 }
